@@ -58,4 +58,17 @@ PROPS = {
             {"name": "otel", "pkg": "c20", "run": "^TestC20OTel$", "shards": {"quick": 4, "thorough": 16}, "timeout": {"quick": 300, "thorough": 1500}},
         ],
     },
+    "C02": {
+        "level": "exploration",
+        "level_text": "Held on K recorded concurrent histories (2-4 goroutines x 3-8 registry/publish operations on 2-3 types sharing a shard, noise at every user-code yield point, GOMAXPROCS 1/2/4/16, built with -race) and on a deterministic grid of gate scenarios (publisher parked at before-hook / filter i / OnHandlerStart i / body i / after-hook while one complete Subscribe / Unsubscribe j / Clear / ClearAll / Publish / HandlerCount runs): the three interval clauses of the statement and the quiescent clause (HandlerCount = registrations reached by a probe publish; must-survive within, certainly-removed outside) held on every history. Exploration of schedules, not all of them.",
+        "level_note": "Real-time order comes only from one logical clock (A.ret < B.call); the oracle is exactly the statement, not linearizability. Windows without user code in them are reached only by stress + scheduler randomisation. The recorder's mutex adds happens-before edges, so the race detector's view of these runs is a bonus, not the C03 verdict.",
+        "technique": "runtime monitoring: offline interval checker over histories recorded at the API boundary (stress + gated schedules), under the race detector",
+        "design_ref": "DESIGN.md section 5 C02, sections 4.1, 4.6",
+        "rule": "stress: PRNG plans, unique handler class per registration; gates: grid of (3-handler list over plain/once/async/filtered) x (park point, position) x (interposed operation); distinct = set of operation-kind pairs observed overlapping in logical time (+ goroutine count), or the gate scenario tuple; non-trivial = a registry mutation's [call,ret] overlapped a publish's [call,ret] (stress) / the gate was reached and the interposed operation ran inside the window (gates)",
+        "assumptions": ["logical-clock stamps are taken at the API boundary and inside user callbacks only"],
+        "parts": [
+            {"name": "gates", "pkg": "c02", "run": "^TestC02Gates$", "shards": {"quick": 2, "thorough": 8}, "timeout": {"quick": 300, "thorough": 1500}},
+            {"name": "stress", "pkg": "c02", "run": "^TestC02Stress$", "race": True, "shards": {"quick": 6, "thorough": 16}, "timeout": {"quick": 400, "thorough": 3000}},
+        ],
+    },
 }
